@@ -596,6 +596,13 @@ class ExcelModel:
             k: v for k, v in dsp.default_values.items() if k not in inp
         }
 
+        def _self(d):  # Sparse ranges read the solution of their dispatcher.
+            if sh.SELF in d.default_values:
+                d.default_values[sh.SELF] = dict(
+                    d.default_values[sh.SELF], value=d
+                )
+
+        _self(dsp)
         res = dsp()
         from ..functions import COMPILING
         stack = [  # Volatile cells are evaluated at call time, never stored.
@@ -621,12 +628,14 @@ class ExcelModel:
             if k in dsp.data_nodes and k not in dsp.default_values:
                 dsp.set_default_value(k, v.value)
 
+        _self(dsp)
         func = self.compile_class(
             dsp=dsp,
             function_id=self.dsp.name,
             inputs=inputs,
             outputs=outputs
         )
+        dsp.solution = func.solution  # Of the function, not of the model.
 
         return func
 
